@@ -42,7 +42,8 @@ type wreq struct {
 	CrashAt string `json:"crash_at,omitempty"` // vhook point at which the process exits (197)
 	ErrAt   string `json:"err_at,omitempty"`   // vhook error point that fails once
 
-	Scratch string `json:"scratch,omitempty"` // observe: directory for restored files
+	Scratch string   `json:"scratch,omitempty"` // observe: directory for restored files
+	Known   []string `json:"known,omitempty"`   // observe: stream hashes whose restore result the driver already has
 }
 
 type metaLite struct {
@@ -59,6 +60,8 @@ type snapObs struct {
 	MetaIndex   uint64 `json:"meta_index,omitempty"`
 	MetaSize    int64  `json:"meta_size,omitempty"`
 	StreamLen   int64  `json:"stream_len,omitempty"`
+	StreamSHA   string `json:"stream_sha,omitempty"`
+	Restored    bool   `json:"restored"`
 	HdrErr      string `json:"hdr_err,omitempty"`
 	NWALs       int    `json:"n_wals"`
 	HasDB       bool   `json:"has_db"`
@@ -228,7 +231,7 @@ func worker(args []string) {
 			n, c, err := st.Reap()
 			return wresp{N: n, C: c, Err: errStr(err)}
 		case "observe":
-			return wresp{Obs: observe(st, dir, q.Scratch, &nRestore)}
+			return wresp{Obs: observe(st, dir, q.Scratch, q.Known, &nRestore)}
 		}
 		return wresp{Err: "unknown op"}
 	})
@@ -236,8 +239,16 @@ func worker(args []string) {
 
 // observe reads the whole catalog through the public API and resolves every
 // listed snapshot with Open → Restore.
-func observe(st *snapshot.Store, dir, scratch string, nRestore *int) *observation {
+//
+// Restore is a function of the stream bytes only, so a stream whose hash the
+// driver has already seen restored (known) is read and hashed but not
+// restored again.
+func observe(st *snapshot.Store, dir, scratch string, known []string, nRestore *int) *observation {
 	o := &observation{Snaps: []snapObs{}}
+	knownSet := map[string]bool{}
+	for _, k := range known {
+		knownSet[k] = true
+	}
 	all, err := st.ListAll()
 	o.ListAll, o.ListAllErr = lite(all), errStr(err)
 	one, err := st.List()
@@ -268,6 +279,7 @@ func observe(st *snapshot.Store, dir, scratch string, nRestore *int) *observatio
 			continue
 		}
 		so.StreamLen = int64(len(b))
+		so.StreamSHA = snapgen.SHA256Bytes(b)
 		hdr, _, _, herr := snapgen.ParseStream(b)
 		if herr != nil {
 			so.HdrErr = herr.Error()
@@ -277,6 +289,11 @@ func observe(st *snapshot.Store, dir, scratch string, nRestore *int) *observatio
 		} else {
 			so.HdrErr = "stream header is not a full (database + WALs) header"
 		}
+		if knownSet[so.StreamSHA] {
+			o.Snaps = append(o.Snaps, so)
+			continue
+		}
+		so.Restored = true
 		*nRestore++
 		so.RestoreFile = filepath.Join(scratch, fmt.Sprintf("r%06d.db", *nRestore))
 		if _, err := snapshot.Restore(bytes.NewReader(b), so.RestoreFile); err != nil {
